@@ -441,6 +441,24 @@ def run_case(ctx):
         res = check_state(ctx, cx, MP, uf, step, final=False)
         if res is None:
             return
+        # incremental gluing on ONE object: finalize the real object in the middle of the history, look at
+        # it (anything a cache inside Multipatch could remember), then keep joining
+        if ex.chance(20):
+            ctx.log(['finalize-in-place', step])
+            ctx.count('op.finalize-in-place')
+            if ctx.call('finalize', MP.finalize) is ctx_raised():
+                return
+            pq = ex.choice(npatch)
+            for nm, fn in (('patch_to_global_idx', lambda: MP.patch_to_global_idx(pq)),
+                           ('patch_to_global', lambda: MP.patch_to_global(pq)),
+                           ('numdofs', lambda: MP.numdofs)):
+                if ctx.call(nm, fn) is ctx_raised():
+                    return
+            if ex.chance(50):
+                fcs = [(p, (ax, sd)) for p in range(npatch) for ax in range(dim) for sd in (0, 1)]
+                pb, bdb = fcs[ex.choice(len(fcs))]
+                if ctx.call('compute_dirichlet_bcs', MP.compute_dirichlet_bcs, [(pb, bdb, (lambda *x: 1.0))]) is ctx_raised():
+                    return
     all_delivered = len(delivered) == len(truth)
     res = check_state(ctx, cx, MP, uf, step, final=True)
     if res is None:
